@@ -76,11 +76,6 @@ def create_linked_view(project, prefix=None, job_ids=None, path=None):
     for job in jobs:
         paths = os.path.join(path_function(job), "job")
         links[paths] = job.path
-    if not links:  # data space contains less than two elements
-        for job in project.find_jobs():
-            links["./job"] = job.path
-        assert len(links) < 2
-
     # Updating the view will fail on Windows, if symlinks are not enabled.
     # Before re-raising the exception, print a helpful message for the expected error.
     try:
